@@ -77,8 +77,10 @@ class SynchronousDeferredRunTest(_DeferredRunTest):
 
     def _run_user(self, function, /, *args, **kwargs):
         # Same signature as RunTest._run_user: _run_cleanups hands the keyword
-        # arguments of addCleanup(f, key=value) through it.
-        d = defer.maybeDeferred(function, *args, **kwargs)
+        # arguments of addCleanup(f, key=value) through it.  They must not
+        # reach maybeDeferred(f, *args, **kwargs) as keywords: one named 'f'
+        # would collide with its own parameter.
+        d = defer.maybeDeferred(lambda: function(*args, **kwargs))
         d.addErrback(self._got_user_failure)
         result = extract_result(d)
         return result
